@@ -178,14 +178,22 @@ func ruleL2(c *Ctx) {
 		if !(t.Exit == "return" && t.Verd.only(0) && t.RetOffs == "+i" && len(t.Calls) <= 2) {
 			continue
 		}
-		for ci, cd := range t.Conds {
-			m := reT.FindStringSubmatch(cd)
-			if m == nil || ci+2 != len(t.Conds) {
-				continue // the terminator exit is decided by exactly these two tests, last on the path
+		// decided by exactly two tests, last on the path, in either order: byte == T and T != 0
+		if len(t.Conds) < 2 {
+			continue
+		}
+		l1, l2 := t.Conds[len(t.Conds)-2], t.Conds[len(t.Conds)-1]
+		for _, pair := range [][2]string{{l1, l2}, {l2, l1}} {
+			m := reT.FindStringSubmatch(pair[0])
+			if m == nil {
+				continue
 			}
 			tv := m[1]
+			if !(strings.HasPrefix(pair[1], "+"+tv+"!=+") || strings.HasPrefix(pair[1], "!+"+tv+"!=+") || strings.HasPrefix(pair[1], "+"+tv+"==+") || strings.HasPrefix(pair[1], "!+"+tv+"==+")) {
+				continue // the other test is not about T: not a terminator exit
+			}
 			nterm++
-			c.check(t.Conds[ci+1] == "+"+tv+"!=+0", "L2", "terminator-armed:"+r.name(t.From)+":"+t.Bytes.String(), t.RetPos, "the list ends with success at a byte equal to the configured terminator "+tv+" only if a terminator is configured: the test that follows is "+tv+" != 0 (got "+t.Conds[ci+1]+")")
+			c.check(pair[1] == "+"+tv+"!=+0" || pair[1] == "!+"+tv+"==+0", "L2", "terminator-armed:"+r.name(t.From)+":"+t.Bytes.String(), t.RetPos, "the list ends with success at a byte equal to the configured terminator "+tv+" only if a terminator is configured: the accompanying test is "+tv+" != 0 (got "+pair[1]+")")
 			break
 		}
 	}
